@@ -54,11 +54,29 @@ CHECKS = {
                      "template up to the bound; recorded outputs of all public expansion entry points, check() and escape() are recomputed by TLC (TraceExpand).",
                 note="Template alphabet of 14 symbols; exhaustive to length 3 (quick) / 4 (thorough), longer templates sampled; three capture fixtures. " + TCB,
                 technique="TLC model checking of the scanner + trace validation of recorded expansions"),
+    "C14": dict(level="model_checking", ref="6 C14",
+                text="Options.tla states case_insensitive(true) as the transformation ApplyCasei of the pattern; rows recorded from four builds of every pattern "
+                     "(builder option, (?i) prefix, no option, option off) are validated by TLC against RefSem of the transformed / untransformed AST; size-limit "
+                     "fixtures: every host around a big delegated piece must be accepted or rejected exactly like the piece alone.",
+                note="Mixed-case grammar to the node bound, texts over {a,A,b,B} up to length 3; size limits checked on 2 pieces x 6 hosts only; backtrack_limit is C07's. " + TCB,
+                technique="TLA+ model of the options as AST transformation + trace validation of recorded searches"),
     "C15": dict(level="model_checking", ref="6 C15",
                 text="Conditional grammar (both forms, exhaustive to the node bound) and conditional fillers x contexts (atomic groups, loops, "
                      "look-arounds, other conditions) validated cell by cell against RefSem's conditional clauses, all groups compared.",
                 note="Same bounds and trusted base as C01.",
                 technique="TLA+ reference semantics evaluated by TLC + trace validation of recorded captures"),
+    "C16": dict(level="model_checking", ref="6 C16",
+                text="captures_len, capture_names and, for every first match, Captures::len / iter / get / name are recorded and validated by TLC against counts and "
+                     "names computed from the AST (opening-parenthesis numbering) and against the accessor equations, for delegated and VM-compiled patterns, "
+                     "numbered and all-named twins.",
+                note="Unrestricted grammar to the node bound + contexts x fillers + random; texts up to length 2. " + TCB,
+                technique="trace validation of recorded metadata against AST-derived expectations evaluated by TLC"),
+    "C17": dict(level="model_checking", ref="6 C17",
+                text="Escape.tla defines the special set, the borrow rule and the meaning (literal sequence); for every string up to the bound TLC recomputes escape(s), "
+                     "the Cow variant and, via RefSem, every span found by the escaped string alone and inside five fancy hosts in six derived haystacks; "
+                     "the lemma Search(LitSeq(s)) = str::find is checked by TLC on the same cases.",
+                note="Exhaustive to length 2 (quick) / 3 (thorough) over 24 symbols incl. all specials and 2-4 byte characters; longer strings sampled. " + TCB,
+                technique="TLA+ model of escape + trace validation of recorded escapes and searches"),
 }
 
 NOT_YET = {
